@@ -54,7 +54,7 @@ PROPS = {
         ],
     },
     "C01": {
-        "explanation": "UNDOSET: the block of the encoder that takes a step back (when a full block ends at the buffer end) reverts every counter the step changed. "
+        "explanation": "LINCODEC: relational abstract interpretation of the five encoder functions with the output vector as an area of iov_len bytes and the encoder state inside it (done + scratch <= iov_len): every store of the loop-free termination paths (COBS/R tail inline, delimiter) stays inside the vector; stores inside the byte loops are listed as undecided. CURSORPAIR: a cursor kept as (base, used) moves in both members before base is read again. UNDOSET: the block of the encoder that takes a step back (when a full block ends at the buffer end) reverts every counter the step changed. "
                        "STEPPAIR: in mpt_array_push the data pointer and the remaining length move by the same amount. RESUMESAVE: resumable coders save the same state set on every "
                        "suspension exit. CODECPAIR: for every framing id the encoder and decoder switches return two halves of one codec: both present, both regular or both "
                        "tail-inline wrappers of a registered regular pair; the encoder's block limit (`++code == E`) and zero-pair parameters (offset, code range) "
@@ -64,7 +64,7 @@ PROPS = {
         "not_decided": "encode/decode identity for every message, split and capacity schedule; 'no zero byte inside a frame'; byte-level bounds of the encoders "
                        "(relational over off/code/left); python encoder beyond the two structural facts",
         "assumptions": [],
-        "technique": "table extraction from dispatch switches + abstract evaluation of the decoder's length formulas per code value + python ast query",
+        "technique": "relational abstract interpretation (encoder bounds); table extraction from dispatch switches + abstract evaluation of the decoder's length formulas per code value + python ast query",
         "level_text": "Decides a necessary condition of the round trip that is visible in tables and constants: selected encoder/decoder belong together and agree on "
                       "every code value the encoder can emit (255 codes x 2 regular codecs evaluated). Not the byte-level round trip.",
         "level_note": "trusts clang constant folding of the macro-expanded formulas; pattern anchors: `++code == E`, conditional `c + K`, `_ctx & 0xff`",
@@ -78,7 +78,7 @@ PROPS = {
         ],
     },
     "C20": {
-        "explanation": "PROPTABLE: for axis/line/text/graph/world the getter's (name,type,offset) table is read from the static initialiser: each row's type tag "
+        "explanation": "TERMINATED: n bytes copied into a block sized n + 1 are followed by the terminator store on every path. PROPTABLE: for axis/line/text/graph/world the getter's (name,type,offset) table is read from the static initialiser: each row's type tag "
                        "matches the type of the field its offset expression names; the whole-object format[] lines up with the struct's fields (size, number class); "
                        "every listed name is compared by the setter and that setter branch touches the field the row points to (or the sub-struct holding it); literal "
                        "row indices in special cases refer to a row whose setter writes the field the special case reads. CONVDEST: every convert(src, K, &field) with "
@@ -130,7 +130,7 @@ PROPS = {
         ],
     },
     "C12": {
-        "explanation": "IDFIT: interval proof over mpt_message_id2buf() for each header width 1..8 (trace partition on the remaining length unrolls the byte loop, array elements at constant "
+        "explanation": "FORMATARGS: literal log formats get one argument per conversion of the right class (a mismatch on the rejected-send path crashed instead of leaving the request armed). IDFIT: interval proof over mpt_message_id2buf() for each header width 1..8 (trace partition on the remaining length unrolls the byte loop, array elements at constant "
                        "indices are tracked): every id the width table permits is accepted, ids with the reply marker bit or needing more bytes are refused. "
                        "OUTPARAM (callee side): out-parameter summaries by trace-partitioned interval analysis: a result parameter stored on one non-error return is stored on all "
                        "(mpt_message_buf2id and every int function with scalar results in the anchor files). IDWIDTH: the per-width maximum in mpt_command_reserve equals "
@@ -154,7 +154,7 @@ PROPS = {
         ],
     },
     "C17": {
-        "explanation": "CURSOR: every advance of an iovec cursor in the message functions is paired with a decrement of its element count and happens only while the count is "
+        "explanation": "FRAGALL: no success return from the zero edge of a test of msg->used without a look at msg->clen. CURSOR: every advance of an iovec cursor in the message functions is paired with a decrement of its element count and happens only while the count is "
                        "non-zero (interval fact at the advance, or a dominating branch on the count's decrement; the position-walk idiom is accepted by shape). "
                        "DECWRAP: no loop condition pre-decrements an unsigned count that may be zero. PROGRESS: every loop changes something one of its exit conditions reads.",
         "not_decided": "equality with the flat computation (positions, counts, copied bytes) for every way of cutting the data",
@@ -172,7 +172,7 @@ PROPS = {
         ],
     },
     "C03": {
-        "explanation": "RESUMESAVE: the 'need more input / more space' exits of a resumable decoder save the same set of state fields (sibling agreement over the exits of one function: "
+        "explanation": "CURSORSYNC: after mpt_message_read() advanced the cursor a local copy of its position is reloaded, not stepped by hand. CURSORPAIR as for C01. RESUMESAVE: the 'need more input / more space' exits of a resumable decoder save the same set of state fields (sibling agreement over the exits of one function: "
                        "a set saved by at least three exits must not be saved partially by another). PROGRESS: every loop of the frame decoders, mpt_message_read and the queue receive/peek functions changes something one of its exit conditions reads, so "
                        "each decoder call terminates for every byte string and segmentation. CURSOR: the source iovec cursor is only advanced after a successful "
                        "`if (!count--) return` test, i.e. never past the sourcelen elements the caller passed.",
@@ -239,7 +239,7 @@ PROPS = {
         ],
     },
     "C15": {
-        "explanation": "REFWRITE: every store to refcount::_val in the program is in the refcount primitives or a positive-constant initialisation. REFSHAPE: interval analysis of "
+        "explanation": "LOWERFAIL: after mpt_refcount_lower() left other references a failure return is preceded by mpt_refcount_raise(). REFWRITE: every store to refcount::_val in the program is in the refcount primitives or a positive-constant initialisation. REFSHAPE: interval analysis of "
                        "mpt_refcount_raise/lower with a ghost net-change counter as trace partition: the counter is only changed while known non-zero, a kept increment returns "
                        "non-zero, every other exit returns the failure value with no net change (overflow is undone). UNREFIMPL: for every vtable whose addref slot raises a counter, "
                        "the unref slot's teardown calls are dominated by the test of mpt_refcount_lower() and unreachable from its 'references remain' edge. REFREPLACE: a value "
@@ -262,13 +262,13 @@ PROPS = {
         ],
     },
     "C16": {
-        "explanation": "IDENTOVERLAY: struct layout (_base directly follows _val[4]) is read from the record; trace partitioning on 'content possibly longer than 4 bytes was written "
+        "explanation": "LINIDENT: relational abstract interpretation of identifier.c with INV(id): _val is an inline area of at least _max (and at least 4) bytes, _base a block of _len bytes while _len > _max: every copy stays inside the chosen area, INV holds at return, _base is not read after a write through _val ran over it (OVERLAY). IDENTOVERLAY: struct layout (_base directly follows _val[4]) is read from the record; trace partitioning on 'content possibly longer than 4 bytes was written "
                        "at X->_val': no read of X->_base in such a state until _base is assigned; every read of _base that follows the pointer is under the discriminant "
                        "X->_len > X->_max (conditional-operator arm or dominating branch). NARROW: interval of every value stored to identifier._len (u16) / _max (u8) lies in "
                        "the field range (null-test partitions + copy relations x = y + c). ALLOCPOLARITY, NULLCONTRA (incl. NULL handed to memcpy/strlen), UAF, OBJSIZE on the anchor files.",
         "not_decided": "read-back equality and comparison results per length; leak freedom on every path",
         "assumptions": [],
-        "technique": "layout facts from the record + typestate (overlay) with trace partitioning + dominator check of the storage discriminant + interval analysis of narrow stores",
+        "technique": "relational abstract interpretation (identifier storage); layout facts from the record + typestate (overlay) with trace partitioning + dominator check of the storage discriminant + interval analysis of narrow stores",
         "level_text": "Decides the storage discipline of the inline/external overlay for all functions touching identifier._val/_base (23 reads/writes) on every path.",
         "level_note": "identity comparisons of _base (address-type identifiers in mpt_node_locate) are not content reads",
         "rules": [
@@ -283,7 +283,7 @@ PROPS = {
         ],
     },
     "C05": {
-        "explanation": "TRAITS: every static type_traits initialiser (41 incl. the C++ type_properties pattern) pairs init with fini and states the size of the type its init/fini "
+        "explanation": "CTORCOVER/CTORFAIL: inside constructing loops the used length records the loop position before the function ends on a failing constructor. FINIMATCH: a loop that finalises what is about to be rebuilt is bounded by the end of the rebuilt range. TRAITS: every static type_traits initialiser (41 incl. the C++ type_properties pattern) pairs init with fini and states the size of the type its init/fini "
                        "bodies cast the element to. FINILOOP: element loops calling traits->init/fini (found through the call via those fields) pass `payload + index` with the "
                        "range offset applied once. DEADFINI: where a function gives 'bound == 0' a meaning of its own, the used length of the loop's buffer is not changed in that "
                        "path class (trace partition on bound == 0). DETACHCOPY: detach implementations copy a still-shared source through mpt_buffer_set (element copy), raw "
@@ -311,12 +311,12 @@ PROPS = {
         ],
     },
     "C10": {
-        "explanation": "NARROW: every store to path.first (u8) in the anchor files has a value interval inside the field (the 0 = 'search separator' escape counts). USEDNOTSIZE / "
+        "explanation": "LINPATH as for C08 (path_set, path_valid, path_data, path_fini, addchar/delchar, invalidate; add/del/last/next are excluded by name: their indexing is justified by lengths stored in the text). NARROW: every store to path.first (u8) in the anchor files has a value interval inside the field (the 0 = 'search separator' escape counts). USEDNOTSIZE / "
                        "BUFMIX on the config item arrays. CONVDEST on mpt_config_get/convert callers. REFREPLACE in mpt_meta_set. NULLCONTRA, UAF, OBJSIZE on the anchor files. "
                        "(COWGUARD/STALE on the path_* buffer helpers is part of the C04 check; the config item arrays are unique, never shared, and out of its scope.)",
         "not_decided": "map semantics over assign/remove/query histories; longest-prefix lookup results",
         "assumptions": [],
-        "technique": "interval analysis of narrow stores with null-test partitions; table and typestate rules shared with C04/C05/C15",
+        "technique": "relational abstract interpretation (path primitives); interval analysis of narrow stores with null-test partitions; table and typestate rules shared with C04/C05/C15",
         "level_text": "Decides the path-element clause (element lengths across the 255 limit are rejected or escaped) and memory-discipline necessary conditions of the store.",
         "level_note": "",
         "rules": [
@@ -331,14 +331,14 @@ PROPS = {
         ],
     },
     "C08": {
-        "explanation": "PROGRESS over every loop of the parser stages (each cycle consumes input through one of the character readers or changes what its exit reads). GETCWHO: the "
+        "explanation": "LINPATH: relational abstract interpretation of the path primitives (array flag set: base is the payload of a buffer with off + len <= _used; clear: caller memory; single-bit facts about the flag word): stores such as the terminator base[len] stay inside the payload, the path/buffer relation holds again at return. PROGRESS over every loop of the parser stages (each cycle consumes input through one of the character readers or changes what its exit reads). GETCWHO: the "
                        "input callback is invoked by exactly the three character readers and no stage replaces the caller's input source, i.e. each character is obtained once and "
                        "there is no push-back path. ERRFX on mpt_parse_node: no store to the target root on a path that returns an error (the temporary tree is merged only after "
                        "err >= 0). CTYPEARG: every <ctype.h> table index lies in [-128,255] (interprocedural return summaries of the readers). NARROW on path.first. "
                        "UAF/NULLCONTRA/OBJSIZE/BOUNDSTALE on the anchor files.",
         "not_decided": "absence of every invalid access for hostile input; well-nestedness of the emitted event sequence; leak freedom on all error paths",
         "assumptions": ["parser_input.getc callbacks follow the fgetc() contract: result <= 255 (negative or 0 ends the input)"],
-        "technique": "syntactic loop variants + who-may-call check on the input callback + trace-partitioned effect-before-refusal analysis + interval analysis with call summaries",
+        "technique": "relational abstract interpretation (path primitives); syntactic loop variants + who-may-call check on the input callback + trace-partitioned effect-before-refusal analysis + interval analysis with call summaries",
         "level_text": "Termination after reading each character once, and 'a failed parse leaves the target tree as it was', for every input and format (structural proofs over all paths).",
         "level_note": "callee effects on the tree (mpt_node_move/clear inside the merge) belong to the success path",
         "rules": [
@@ -376,7 +376,7 @@ PROPS = {
         ],
     },
     "C11": {
-        "explanation": "FINALISER: typestate per handler slot (records holding a two-argument function pointer `cmd` next to `arg`), ghost facts notified/empty/fresh carried as trace "
+        "explanation": "FINIALL: the teardown loops leave only on the index bound. FORMATARGS: literal log formats get one argument per conversion of the right class. FINALISER: typestate per handler slot (records holding a two-argument function pointer `cmd` next to `arg`), ghost facts notified/empty/fresh carried as trace "
                        "partitions: every store to a slot's handler in the dispatcher files happens after handler(arg, NULL) ran on that path, after a test showed the slot empty, "
                        "on a slot just obtained from mpt_command_empty()/a fresh insert, or in an initialiser; mpt_command_find() returns occupied slots only (an emptied slot can "
                        "never be invoked); mpt_command_clear() and the traits finaliser notify before dropping slots. IDWIDTH (shared with C12) bounds reserved request ids.",
